@@ -526,4 +526,83 @@ theorem coupling_layer_meas (hdn : d ≤ n) (htf : ∀ ps, (tf ps).Lawful univ u
 
 end coupling
 
+
+/-! ## Coupling with the affine transformer and ANY continuous conditioner (`relu` networks: the library's default) -/
+section couplingaffine
+variable (d n np : ℕ) (cnd : List ℝ → List ℝ) (loc scale : List ℝ → ℝ)
+
+/-- row `k` of a continuous conditioner of constant output length `(n - d) * np` is continuous -/
+theorem rowAt_contC (c : List ℝ) (hc : ContC (fun w : Fin n → ℝ => cnd ((List.ofFn w).take d ++ c)))
+    (hlen : ∀ z, (cnd z).length = (n - d) * np) (k : ℕ) (hk : k < n - d) :
+    ContC (fun w : Fin n → ℝ => rowAt d n cnd c w k) := by
+  have hrow : ∀ w : Fin n → ℝ, rowAt d n cnd c w k
+      = ((cnd ((List.ofFn w).take d ++ c)).drop (k * np)).take np := by
+    intro w
+    have h1 := rowAt_spec d n cnd c w k hk
+    rw [reshapeRows_getElem? _ np _ (hlen _) k hk] at h1
+    exact (Option.some.inj h1).symm
+  have hle : (k + 1) * np ≤ (n - d) * np := Nat.mul_le_mul_right _ hk
+  have hl : ∀ w : Fin n → ℝ, (rowAt d n cnd c w k).length = np := by
+    intro w
+    rw [hrow, List.length_take, List.length_drop, hlen]
+    have : (k + 1) * np = k * np + np := by ring
+    omega
+  refine ⟨⟨np, hl⟩, fun j => ?_⟩
+  by_cases hj : j < np
+  · have e : (fun w => nth (rowAt d n cnd c w k) j)
+        = fun w : Fin n → ℝ => nth (cnd ((List.ofFn w).take d ++ c)) (k * np + j) := by
+      funext w
+      rw [hrow]
+      simp only [nth, List.getElem?_take, List.getElem?_drop, hj, if_true]
+    rw [e]; exact hc.cont _
+  · have e : (fun w => nth (rowAt d n cnd c w k) j) = fun _ => (0 : ℝ) := by
+      funext w; exact nth_of_ge (by rw [hl]; omega)
+    rw [e]; exact continuous_const
+
+/-- joint measurability for the affine family over a continuous conditioner -/
+theorem coupling_affine_meas (c : List ℝ) (hc : ContC (fun w : Fin n → ℝ => cnd ((List.ofFn w).take d ++ c)))
+    (hlen : ∀ z, (cnd z).length = (n - d) * np) (hloc : RowMeas loc) (hscale : RowMeas scale) :
+    CouplingMeas d n cnd (affineFamily loc scale) c := by
+  have hl : ∀ k, k < n - d → Measurable fun w : Fin n → ℝ => loc (rowAt d n cnd c w k) :=
+    fun k hk => hloc _ _ (rowAt_contC d n np cnd c hc hlen k hk)
+  have hsc : ∀ k, k < n - d → Measurable fun w : Fin n → ℝ => scale (rowAt d n cnd c w k) :=
+    fun k hk => hscale _ _ (rowAt_contC d n np cnd c hc hlen k hk)
+  refine ⟨fun k hk => ?_, fun k hk => ?_, fun k hk => ?_⟩
+  · have e : (fun p : (Fin n → ℝ) × ℝ => (affineFamily loc scale (rowAt d n cnd c p.1 k)).fwd p.2 ())
+        = fun p => p.2 * scale (rowAt d n cnd c p.1 k) + loc (rowAt d n cnd c p.1 k) := by
+      funext p; simp only [affineFamily, Affine.toBij, Affine.transform]
+    rw [e]
+    exact (measurable_snd.mul ((hsc k hk).comp measurable_fst)).add ((hl k hk).comp measurable_fst)
+  · have e : (fun p : (Fin n → ℝ) × ℝ => (affineFamily loc scale (rowAt d n cnd c p.1 k)).inv p.2 ())
+        = fun p => (p.2 - loc (rowAt d n cnd c p.1 k)) / scale (rowAt d n cnd c p.1 k) := by
+      funext p; simp only [affineFamily, Affine.toBij, Affine.inverse]
+    rw [e]
+    exact (measurable_snd.sub ((hl k hk).comp measurable_fst)).div ((hsc k hk).comp measurable_fst)
+  · have e : (fun p : (Fin n → ℝ) × ℝ => ((affineFamily loc scale (rowAt d n cnd c p.1 k)).invLd p.2 ()).2)
+        = fun p => -Real.log |scale (rowAt d n cnd c p.1 k)| := by
+      funext p; simp [affineFamily, Affine.toBij, Affine.inverse_and_log_det]
+    rw [e]
+    exact (Real.measurable_log.comp (continuous_abs.measurable.comp ((hsc k hk).comp measurable_fst))).neg
+
+/-- a conditioner that IS a multilayer perceptron with a continuous activation (any depth, any shapes) -/
+theorem mlp_conditioner_contC (act : ℝ → ℝ) (hact : Continuous act) (Ls : List (MaskedLinear ℝ)) (c : List ℝ) :
+    ContC (fun w : Fin n → ℝ => mlpForward act Ls ((List.ofFn w).take d ++ c)) :=
+  contC_mlp act hact Ls _ (contC_take d c)
+
+/-- **the default coupling layer is mass preserving and its sampler follows its density, in both orientations**: every
+conditioner that is continuous in the first block (`relu` networks included — no differentiability) with output length
+`(n - d) · np`, location / scale measurable functions of the parameter row, non-vanishing scale, every `d ≤ n`, every
+condition. -/
+theorem coupling_affine_layer_meas (hdn : d ≤ n) (c : List ℝ)
+    (hc : ContC (fun w : Fin n → ℝ => cnd ((List.ofFn w).take d ++ c)))
+    (hlen : ∀ z, (cnd z).length = (n - d) * np) (hloc : RowMeas loc) (hscale : RowMeas scale)
+    (hs : ∀ ps, scale ps ≠ 0) :
+    LayerOK (liftBij n (couplingBij d cnd (affineFamily loc scale))) c ∧
+    LayerOK (Gen.Invert.mk (liftBij n (couplingBij d cnd (affineFamily loc scale)))).toBij c :=
+  coupling_layer_meas d n cnd (affineFamily loc scale) hdn (affineFamily_lawful loc scale hs)
+    (affineFamily_antisym loc scale) (affineFamily_lawOK loc scale hs) c
+    (coupling_affine_meas d n np cnd loc scale c hc hlen hloc hscale)
+
+end couplingaffine
+
 end NetMass
